@@ -54,7 +54,7 @@ func init() {
 
 func checkC12(tier string) int {
 	rep := vx.NewReport("C12", tier, "exploration")
-	rep.Rule = "(1) BFS over all sequences of {new id, clock +0/+1 tick/+1 tick-1ns/-1 tick/-3 ticks, burst of 4100 calls} on the real id factory under the virtual clock, for node ids 0, 1, 1023; (2) GenerateID with a frozen / stepped-back clock must wait; (3) E1: every interleaving (DPOR) of 2-3 concurrent publishers (TCP PUB, MPUB, HTTP /pub, direct GenerateID) on one topic, also with a clock-jump transition (three id ticks pass at any point between two steps of the publishers), and starting from a topic that has just exhausted the 4096 ids of the current millisecond; (4) node-id range at start-up. distinct = factory states + distinct scenario outcomes"
+	rep.Rule = "(1) BFS over all sequences of {new id, clock +0/+1 tick/+1 tick-1ns/-1 tick/-3 ticks/+2^8/+2^18/+2^28 ticks, burst of 4100 calls}, ids compared both as numbers and as the 16 hex characters they are rendered to, on the real id factory under the virtual clock, for node ids 0, 1, 1023; (2) GenerateID with a frozen / stepped-back clock must wait; (3) E1: every interleaving (DPOR) of 2-3 concurrent publishers (TCP PUB, MPUB, HTTP /pub, direct GenerateID) on one topic, also with a clock-jump transition (three id ticks pass at any point between two steps of the publishers), and starting from a topic that has just exhausted the 4096 ids of the current millisecond; (4) node-id range at start-up. distinct = factory states + distinct scenario outcomes"
 	rep.Assumptions = []string{"virtual clock", "sequentially consistent memory"}
 	depth := 6
 	if tier == "thorough" {
